@@ -170,8 +170,7 @@ struct Synthetic : KeyParser
     add_alias_key("a float", "alt float", false);
     add_alias_key("v int", "old v int", true);
     add_key("time (hh:mm:ss)", &v.t);
-    if (c17::no_exclude()) // known finding F3: with this key even parameter_info() cannot be parsed back
-      add_vectorised_key("v ratio a:b", &v.vr);
+    add_vectorised_key("v ratio a:b", &v.vr);
     add_stop_key("End Synthetic Parameters");
   }
 };
@@ -336,8 +335,6 @@ gen(Src& s, int size)
       if (type >= 5 && (have_error || i < n / 2))
         type = 0; // at most one error statement, in the second half (so that earlier statements are checked too)
       int key = int(s.range(0, NKEYS - 1));
-      if (!c17::no_exclude() && std::string(KEYS[key].name) == "v ratio a:b")
-        key = 17; // known finding F3: steer away from the vectorised key with ':' (still filtered in check)
       if (type == 5 || type == 6)
         while (!KEYS[key].vectorised)
           key = int(s.range(0, NKEYS - 1));
@@ -698,33 +695,10 @@ show(const std::vector<T>& v)
   return s.str();
 }
 
-// Known: a vectorised key whose keyword contains ':' loses its index (get_index() stops at the first ':' although
-// get_keyword() documents "allow keywords containing colons"); see work/notes/C17_findings.md F3.
-bool
-uses_colon_vector_key(const json& c)
-{
-  for (const auto& st : c["st"])
-    {
-      const Stmt d = decode(st);
-      if (d.type != 1 && d.type != 2 && d.type != 3 && std::string(KEYS[d.key].name) == "v ratio a:b")
-        return true;
-      // same defect: an index on a scalar key with ':' in its keyword is silently dropped instead of reported
-      if (d.type == 7 && std::string(KEYS[d.key].name).find(':') != std::string::npos)
-        return true;
-    }
-  return false;
-}
-
 Result
 check(const json& c)
 {
   c17::quiet();
-  if (!c17::no_exclude() && uses_colon_vector_key(c))
-    {
-      stats().excluded_known++;
-      stats().count("excluded:C17:keyparser:vectorised key with ':' in its keyword");
-      return Result::reject("known:C17:keyparser:vectorised key with ':' in its keyword");
-    }
   const std::string text = render(c);
   Expect e;
   std::size_t n_before_error = 0;
@@ -815,11 +789,7 @@ check(const json& c)
       VF_CHECK(same_array3(a.coa[d], e.coa[std::size_t(d - 1)]), "coordinate of arrays, component ", d, " differs", ctx);
 
   // ---- the synthetic parser's own print must be re-parsable and idempotent after one round
-  // known finding F4: a BasicCoordinate<3,Array<3,float>> value is printed on several lines without the continuation
-  // character, so the print cannot be parsed back; the print round trip is skipped once that key has a value
-  if (!e.error && !e.coa.is_null() && !c17::no_exclude())
-    stats().count("excluded:C17:keyparser:print of BasicCoordinate<3,Array<3,float>> (round trip part only)");
-  else if (!e.error)
+  if (!e.error)
     {
       const std::string t1 = p.parameter_info();
       Synthetic q;
